@@ -1,13 +1,131 @@
-(* C10 -- MP4 media offsets follow the data when tags change size.  Glue only: statements + Print Assumptions. *)
+(* C10 -- MP4 media offsets follow the data when tags change size.
+   Glue only: statements (proved in proofs/Fam_mp4_*.v) + Print Assumptions + Examples (hypotheses satisfiable,
+   regression witnesses of the three defects found while building this check, now fixed in /repo).
+   Model: Model.Fam_mp4 (mirror of mutagen/mp4/_atom.py and MP4Tags.save ...); tie: harness/props/c10.py. *)
 From Coq Require Import ZArith List Bool Lia.
 Import ListNotations.
 Require Import Base.Py Base.ZList Model.Splice Model.Fam_mp4.
-Require Import Proofs.Fam_mp4_tree Proofs.Fam_mp4_parse.
+Require Import Proofs.Fam_mp4_tree Proofs.Fam_mp4_parse Proofs.Fam_mp4_steps Proofs.Fam_mp4_agree Proofs.Fam_mp4_surgery
+  Proofs.Fam_mp4_existing Proofs.Fam_mp4_main Proofs.Fam_mp4_c10.
 Open Scope Z_scope.
 
-(* a strict description of a file (atoms tile their parents at every level, three size forms) is exactly the tree
-   mutagen's lenient reader builds: the strict rules determine what MP4Tags.save will operate on *)
+(* A strict description of a file (atoms tile their parents at every level; 32-bit / 64-bit / to-EOF size forms) is exactly
+   the tree mutagen's lenient reader builds, for every file: the strict rules determine what MP4Tags.save operates on. *)
 Theorem C10_strict_tree_is_mutagens_tree f ks :
   mp4_forest_ok f true ks 0 (zlen f) = true -> mp4_atoms f = Ok ks.
 Proof. exact (parse_complete f ks). Qed.
 Print Assumptions C10_strict_tree_is_mutagens_tree.
+
+(* Every well-formed atom tree (any nesting, any number of trak / moof / free atoms, any mix of size forms) with an existing
+   moov.udta.meta.ilst, every rendered ilst that is itself a well-formed atom, every padding callback:
+   after mp4_save the atoms again tile their parents at every level -- i.e. every ancestor's size field (moov, udta, meta;
+   32-bit, 64-bit, or the untouched to-EOF form) equals the extent of its children -- and that tree is what the next load reads. *)
+Theorem C10_parents_consistent f ilst_data cb f' atoms path it :
+  mp4_wf f = true -> mp4_atoms f = Ok atoms -> mp4_path atoms ILST_PATH = Some path -> mp4_tags_clean atoms = true ->
+  ilst_wellformed ilst_data it -> mp4_save f ilst_data cb = Ok f' ->
+  exists atoms', mp4_atoms f' = Ok atoms' /\ mp4_forest_ok f' true atoms' 0 (zlen f') = true.
+Proof. exact (c10_parents_consistent f ilst_data cb f' atoms path it). Qed.
+Print Assumptions C10_parents_consistent.
+
+(* With (off, old) the replaced region (ilst + the one adjacent free atom) and delta the size change:
+   - every stco / co64 table under moov keeps its count and every entry o becomes o + delta iff o > off (mp4_shift): entries at
+     or beyond the end of the region move with the data, entries not past the region start stay; an entry pointing INTO the
+     region (off < o < off + old: it addresses tag bytes, not media) is moved like the ones behind it -- stated, not required;
+   - every tfhd base-data-offset of EVERY top-level moof likewise;
+   - every leaf atom outside the region that is not such a table (mdat, ftyp, free, stsd ...) keeps all its bytes, at its old
+     position if it lies before the region and delta further if it lies behind it;
+   - the region holds the new ilst followed by the free atom. *)
+Theorem C10_offsets_follow_data f ilst_data cb f' atoms path :
+  mp4_wf f = true -> mp4_atoms f = Ok atoms -> mp4_path atoms ILST_PATH = Some path -> mp4_tags_clean atoms = true ->
+  mp4_save f ilst_data cb = Ok f' ->
+  exists off old, mp4_region_of path = Some (off, old) /\ 0 <= off /\ 8 <= old /\ off + old <= zlen f /\
+    let delta := zlen f' - zlen f in
+    let np := mp4_newpos off old delta in
+    (forall T, In T (mp4_stco_list atoms) ->
+       tab_entries 4 f' (np (ma_off T)) = map (mp4_shift off delta) (tab_entries 4 f (ma_off T))) /\
+    (forall T, In T (mp4_co64_list atoms) ->
+       tab_entries 8 f' (np (ma_off T)) = map (mp4_shift off delta) (tab_entries 8 f (ma_off T))) /\
+    (forall T, In T (mp4_tfhd_list atoms) -> tfhd_flag f (ma_off T) = true ->
+       tfhd_flag f' (np (ma_off T)) = true /\
+       tfhd_base f' (np (ma_off T)) = mp4_shift off delta (tfhd_base f (ma_off T))) /\
+    (forall L, In L (mp4_flat atoms) -> ma_kids L = None -> is_table_name L = false ->
+       (ma_off L + ma_len L <= off \/ off + old <= ma_off L) ->
+       agree f (ma_off L) f' (np (ma_off L)) (ma_len L)) /\
+    agree (new_region cb f off old ilst_data) 0 f' off (zlen (new_region cb f off old ilst_data)) /\
+    delta = zlen (new_region cb f off old ilst_data) - old.
+Proof. exact (c10_offsets_follow_data f ilst_data cb f' atoms path). Qed.
+Print Assumptions C10_offsets_follow_data.
+
+(* The chunk an offset addresses: same bytes before and after, and the rewritten entry is exactly where they now are. *)
+Theorem C10_chunk_bytes f ilst_data cb f' atoms path :
+  mp4_wf f = true -> mp4_atoms f = Ok atoms -> mp4_path atoms ILST_PATH = Some path -> mp4_tags_clean atoms = true ->
+  mp4_save f ilst_data cb = Ok f' ->
+  exists off old, mp4_region_of path = Some (off, old) /\
+    let delta := zlen f' - zlen f in
+    forall L o n, In L (mp4_flat atoms) -> ma_kids L = None -> is_table_name L = false ->
+      ma_off L <= o -> 0 <= n -> o + n <= ma_off L + ma_len L ->
+      (off + old <= ma_off L ->
+         mp4_shift off delta o = o + delta /\ mp4_rd f' (o + delta) n = mp4_rd f o n) /\
+      (ma_off L + ma_len L <= off ->
+         mp4_shift off delta o = o /\ mp4_rd f' o n = mp4_rd f o n).
+Proof. exact (c10_chunk_bytes f ilst_data cb f' atoms path). Qed.
+Print Assumptions C10_chunk_bytes.
+
+(* ------------------------------------------------------------------ Examples: the hypotheses are satisfiable *)
+Definition ex_ilst_small : list Z := mp4_render N_ilst (mp4_render [169;110;97;109] (mp4_render [100;97;116;97] ([0;0;0;1;0;0;0;0] ++ [104;105]))).
+Definition ex_ilst_big : list Z := mp4_render N_ilst (mp4_render [169;110;97;109] (mp4_render [100;97;116;97] ([0;0;0;1;0;0;0;0] ++ mp4_pattern 90 1))).
+Definition ex_layout (moov_first : bool) (meta : list mp4_mitem) (moofs : list mp4_moof) (big : Z) (size0 : bool) : mp4_layout :=
+  mkLayout moov_first 2 false (-1) meta ex_ilst_small
+    [mkTrak false true [0; 10; 31]; mkTrak true true [5; 32]] moofs (mp4_pattern 32 1) big 0 size0.
+Definition ex_file : list Z := mp4_build (ex_layout true [MHdlr; MIlst; MFree 16] [mkMoof true 3 0; mkMoof true 7 2] 4 false).
+
+Example C10_ex_wellformed : mp4_wf ex_file = true.
+Proof. vm_compute. reflexivity. Qed.
+Example C10_ex_hypotheses :
+  exists atoms path it f', mp4_atoms ex_file = Ok atoms /\ mp4_path atoms ILST_PATH = Some path /\ mp4_tags_clean atoms = true /\
+    ilst_wellformed ex_ilst_big it /\ mp4_save ex_file ex_ilst_big (mp4_cb_const 9) = Ok f' /\ mp4_wf f' = true.
+Proof.
+  destruct (mp4_atoms ex_file) as [atoms|] eqn:Ea; [|vm_compute in Ea; discriminate].
+  destruct (mp4_path atoms ILST_PATH) as [path|] eqn:Ep; [|vm_compute in Ea; inversion Ea; subst; vm_compute in Ep; discriminate].
+  destruct (mp4_save ex_file ex_ilst_big (mp4_cb_const 9)) as [f'|] eqn:Es; [|vm_compute in Es; discriminate].
+  destruct (mp4_atoms ex_ilst_big) as [[|it [|]]|] eqn:Ei; try (vm_compute in Ei; discriminate).
+  exists atoms, path, it, f'. repeat split; auto.
+  - vm_compute in Ea. inversion Ea; subst. vm_compute. reflexivity.
+  - vm_compute in Ei. inversion Ei; subst. vm_compute. reflexivity.
+  - vm_compute in Es. inversion Es; subst. vm_compute. reflexivity.
+Qed.
+
+(* all recorded offsets before and after a growing and a shrinking save: every one moved by exactly the size change
+   (the layout has moov before mdat, so all of them lie behind the region) *)
+Definition ex_moved (f : list Z) (ilst : list Z) (pad : Z) : bool :=
+  match mp4_offsets f, mp4_save f ilst (mp4_cb_const pad) with
+  | Ok es, Ok f' =>
+    match mp4_offsets f' with
+    | Ok es' => list_eqb (map (fun e => snd e + (zlen f' - zlen f)) es) (map (fun e => snd e) es') && negb (zlen f' =? zlen f)
+    | _ => false end
+  | _, _ => false
+  end.
+Example C10_ex_offsets_grow : ex_moved ex_file ex_ilst_big 9 = true.
+Proof. vm_compute. reflexivity. Qed.
+Example C10_ex_offsets_shrink : ex_moved ex_file mp4_empty_ilst 0 = true.
+Proof. vm_compute. reflexivity. Qed.
+
+(* ------------------------------------------------------------------ regression witnesses (defects fixed in /repo) *)
+(* (1) every top-level moof's tfhd is patched, not only the first (C10_ex_offsets_grow has two moof atoms) *)
+(* (2) an ancestor whose size field is 0 ("to end of file") is left alone: the result is still well-formed *)
+Definition ex_size0 : list Z := mp4_build (ex_layout false [MHdlr; MIlst] [] 0 true).
+Example C10_ex_size0_parent :
+  mp4_wf ex_size0 = true /\
+  match mp4_save ex_size0 ex_ilst_big (mp4_cb_const 5) with Ok f' => mp4_wf f' && negb (zlen f' =? zlen ex_size0) | _ => false end = true.
+Proof. vm_compute. split; reflexivity. Qed.
+(* (3) a free atom that is not adjacent to ilst (ilst first in meta, free last) is not taken as padding *)
+Definition ex_nonadj : list Z := mp4_build (ex_layout true [MIlst; MHdlr; MFree 50] [] 0 false).
+Example C10_ex_nonadjacent_free :
+  mp4_wf ex_nonadj = true /\
+  match mp4_atoms ex_nonadj with
+  | Ok atoms => match mp4_path atoms ILST_PATH with
+                | Some path => match mp4_region_of path with Some (_, old) => old =? zlen ex_ilst_small | None => false end
+                | None => false end
+  | _ => false end = true /\
+  match mp4_save ex_nonadj ex_ilst_big (mp4_cb_const 5) with Ok f' => mp4_wf f' | _ => false end = true.
+Proof. vm_compute. repeat split; reflexivity. Qed.
